@@ -139,14 +139,24 @@ def nested(items, decl):
     return d
 
 
-def render_tok(t, decl):
+def render_tok(t, decl, op=None):
+    """one token -> the list of argv items it stands for.  Renderings chosen per call (same meaning, other code path):
+    sep = "--<cls>.help", "<class>" as two items"""
+    op = op or {}
     if t[0] == "opt":
-        return "--%s=%s" % (t[1], t[2])
+        name = t[1]
+        if op.get("sep") and name.endswith(".help"):
+            return ["--" + name, t[2]]
+        return ["--%s=%s" % (name, t[2])]
     if t[0] == "flag":
-        return "--" + t[1]
+        return ["--" + t[1]]
     if t[0] == "cfg":
-        return "--cfg=" + json.dumps(nested(t[1], decl))
-    return t[1]
+        return ["--cfg=" + json.dumps(nested(t[1], decl))]
+    return [t[1]]
+
+
+def render_argv(op, decl):
+    return [a for t in op["argv"] for a in render_tok(t, decl, op)]
 
 
 def render_env(items):
@@ -206,8 +216,20 @@ def make_cfg(decl, idx, op):
 def run_op(parser, decl, idx, op):
     kind = op["op"]
     if kind == "parse_args":
-        argv = [render_tok(t, decl) for t in op["argv"]]
-        return outcome(lambda: parser.parse_args(argv))
+        argv = render_argv(op, decl)
+        kw = {}
+        if op.get("kw"):   # parse_args(argv, env=..., defaults=...)
+            kw = {"env": op["kw"][0], "defaults": op["kw"][1]}
+        if op.get("sysargv"):   # parse_args() without a list: the command line of the process
+            def call():
+                old = sys.argv
+                sys.argv = ["app"] + argv
+                try:
+                    return parser.parse_args(**kw)
+                finally:
+                    sys.argv = old
+            return outcome(call)
+        return outcome(lambda: parser.parse_args(argv, **kw))
     if kind == "parse_object":
         obj = nested(op["items"], decl)
         return outcome(lambda: parser.parse_object(obj))
@@ -503,14 +525,19 @@ def run_history(case):
     for op in ops:
         if op["op"] == "parse_args":
             for t in op["argv"]:
-                table[render_tok(t, decls[op["p"]])] = t
+                table[tuple(render_tok(t, decls[op["p"]], op))] = t
 
     def untok(argv):
-        res = []
-        for a in argv:
-            if a not in table:
+        res, i = [], 0
+        while i < len(argv):
+            if len(argv) > i + 1 and tuple(argv[i:i + 2]) in table:
+                res.append(table[tuple(argv[i:i + 2])])
+                i += 2
+            elif (argv[i],) in table:
+                res.append(table[(argv[i],)])
+                i += 1
+            else:
                 return None
-            res.append(table[a])
         return res
 
     def fresh(i, imports):
